@@ -190,17 +190,18 @@ func (g *Gen) wellFormed(term string, t types.Type, alloc string) string {
 				ext = sAnd(ext, g.notInHeapTypes(pObj(term), et))
 			}
 		}
-		return sAnd(app("<=", pObj(term), alloc), g.M.ixLe(g.M.IxLit(0), pOff(term)), g.M.ixLe(pOff(term), g.M.IxLit(1<<48)), ext)
+		// (package-level variables have negative object ids: pointers received from outside never point into them)
+		return sAnd(app("<=", pObj(term), alloc), app("<=", "0", pObj(term)), g.M.ixLe(g.M.IxLit(0), pOff(term)), g.M.ixLe(pOff(term), g.M.IxLit(1<<48)), ext)
 	case "Slice":
 		p := app("sl.ptr", term)
-		return sAnd(app("<=", pObj(p), alloc),
+		return sAnd(app("<=", pObj(p), alloc), app("<=", "0", pObj(p)),
 			g.M.ixLe(g.M.IxLit(0), app("sl.len", term)), g.M.ixLe(app("sl.len", term), app("sl.cap", term)),
 			g.M.ixLe(g.M.IxLit(0), pOff(p)), g.M.ixLe(pOff(p), g.M.IxLit(1<<48)), g.M.ixLe(app("sl.cap", term), g.M.IxLit(1<<31-1)),
 			sOr(sEq(pObj(p), "0"), g.M.ixLe(g.M.ixAdd(pOff(p), g.M.ixMulC(app("sl.cap", term), g.sliceElemSize(t))), app("objsize", pObj(p)))),
 			g.notInHeapTypes(pObj(p), t.Underlying().(*types.Slice).Elem()),
 			sImp(sEq(pObj(p), "0"), sEq(app("sl.cap", term), g.M.IxLit(0))))
 	case "Iface":
-		return sAnd(app("<=", pObj(app("if.val", term)), alloc), app("<=", "0", app("if.dyn", term)),
+		return sAnd(app("<=", pObj(app("if.val", term)), alloc), app("<=", "0", pObj(app("if.val", term))), app("<=", "0", app("if.dyn", term)),
 			sImp(sEq(app("if.dyn", term), "0"), sEq(app("if.val", term), nilPtr(g.M))))
 	case "Str":
 		return g.M.ixLe(g.M.IxLit(0), app("slen", term))
